@@ -3,6 +3,7 @@ CONSTANTS
   MaxSteps = 5
   MaxIdx = 3
   Watch = TRUE
+  Ms = FALSE
 INVARIANT NoGaps
 INVARIANT WellFormed
 INVARIANT AddressesDistinct
